@@ -17,9 +17,11 @@
 (*            ("-" none; "reader": offending unit at offset `at`;          *)
 (*            "other": scanner / parser / composer / constructor error in  *)
 (*            document doc)                                                *)
-(*   disposals, readsAfter, released   after the consumer closed the       *)
-(*            generator: dispose() calls seen, read() calls seen           *)
-(*            afterwards, loader object collected                          *)
+(*   disposals, readsAfter   after the consumer closed the generator:      *)
+(*            dispose() calls seen, read() calls seen afterwards           *)
+(*   alive    what survived of "loader" / "stream" (weak references) once  *)
+(*            the generator had been closed and dropped, with the cyclic   *)
+(*            garbage collector disabled: the EFFECT of releasing          *)
 (***************************************************************************)
 EXTENDS Naturals, Sequences, FiniteSets, TLC, Json, IOUtils
 HL == INSTANCE Lazy
@@ -47,7 +49,8 @@ Judge(t) ==
        THEN Bad("reader error before earlier documents", Delivered(t))
   ELSE IF t.outcome = "done" /\ t.bad.kind = "-" /\ Delivered(t) # n THEN Bad("documents not delivered", Delivered(t))
   ELSE IF t.outcome = "abandoned" /\ ~HL!Released(t.disposals, t.readsAfter) THEN Bad("loader not disposed on abandon", Delivered(t))
-  ELSE IF t.outcome = "abandoned" /\ ~t.released THEN Bad("loader not released on abandon", Delivered(t))
+  ELSE IF t.outcome = "abandoned" /\ ~HL!NothingLeft({t.alive[j] : j \in DOMAIN t.alive})
+       THEN Bad("loader not released on abandon", Delivered(t))
   ELSE Ok
 
 Init == tid \in 1 .. Len(Traces)
